@@ -187,7 +187,7 @@ def gen_program(rng, prof):
             setup.append({'k': 'cb', 'id': 'c%d' % i, 'ev': rng.choice(shared),
                           'defuse': rng.random() < 0.5})
     rng.shuffle(setup)
-    return {'engine': 'K', 't0': rng.choice([0, 0, 0, 1, 0.5, 10, -3, -0.25]), 'shared': shared, 'setup': setup,
+    return {'engine': 'K', 't0': rng.choice([0, 0, 0, 1, 0.5, 10, -3, -0.25, 2.0 ** 40, 7200.0]), 'shared': shared, 'setup': setup,
             'drive': [['run']]}
 
 
@@ -484,6 +484,8 @@ class World:
 
 def setup_world(case, env=None):
     env = env or TapEnvironment(case.get('t0', 0))
+    if case.get('noprobe'):
+        env.probe_enabled = False
     w = World(env)
     for s in case.get('shared', []):
         ev = env.event()
